@@ -63,7 +63,8 @@ Definition merge_stack (s : stack) : ctx :=
 (* ------------------------------------------------------------------ the decorator's wrapper f_ *)
 (* IntrErr: a BaseException that is not an Exception (KeyboardInterrupt, SystemExit, ...) raised by the
    connection while a command is being sent *)
-Inductive err : Type := TypeErr | ValueErr | AssertErr | OtherErr | FuelErr | IntrErr.
+Inductive err : Type := TypeErr | ValueErr | AssertErr | OtherErr | FuelErr | IntrErr
+  | ScpErr.   (* an SCPError raised by the connection: the machine refuses or does not answer a command *)
 
 Definition is_required (d : default) : bool := match d with DRequired => true | DVal _ => false end.
 
@@ -584,6 +585,9 @@ Inductive op : Type :=
 | OCall (m : string) (pos : list value) (kw : list (string * value)) (propagate : bool)
       (* c.m(pos..., kw...); a rejection (an exception before anything is sent) travels outward when
          propagate is set; otherwise, and whenever a command has already been sent, the caller catches it *)
+| OCallRefused (m : string) (pos : list value) (kw : list (string * value))
+      (* c.m(pos..., kw...) where the machine refuses the first command of the call: the connection raises
+         TimeoutError / FatalReturnCodeError (an SCPError), which travels outward *)
 | OWith (kw : list (string * value)) (blk : list op)
       (* with c(kw...): blk -- also `with v: blk` for a Context object v = c(kw...) kept in a variable:
          entering pushes the object, i.e. a frame equal to kw, however often and wherever it is already on
@@ -629,6 +633,12 @@ Definition stop_signal : value := VInt AppSignal_stop.
 
 (* the connection raises while the first command of the call is being sent: that command was handed over,
    nothing after it *)
+Definition refused (o : outcome) : outcome :=
+  match o with
+  | (w :: _, _) => ([w], Some ScpErr)
+  | _ => o
+  end.
+
 Definition interrupted (o : outcome) : outcome :=
   match o with
   | (w :: _, _) => ([w], Some IntrErr)
@@ -640,6 +650,9 @@ Fixpoint run_op (c : ctl) (cls : string) (o : op) (s : stack) {struct o} : res :
   | OCall m pos kw propagate =>
       let out := call FUEL c cls m s pos kw in
       ([EvCall m out], s, propagate && has_err out && nothing_sent out)
+  | OCallRefused m pos kw =>
+      let out := refused (call FUEL c cls m s pos kw) in
+      ([EvCall m out], s, has_err out)
   | OWith kw blk =>
       (* Context(kwargs).__enter__ : push;  __exit__ : (no callbacks) pop, exception not swallowed *)
       let '(ev, s2, r) := run_list (run_op c cls) blk (s ++ [mkdict kw]) in
@@ -690,7 +703,7 @@ Definition flat_value (v : value) : Z * Z * list Z :=
 Definition flat_err (e : option err) : Z :=
   match e with
   | None => 0 | Some TypeErr => 1 | Some ValueErr => 2 | Some AssertErr => 3 | Some OtherErr => 4
-  | Some FuelErr => 5 | Some IntrErr => 6
+  | Some FuelErr => 5 | Some IntrErr => 6 | Some ScpErr => 7
   end.
 Definition flat_fkind (k : fkind) : Z := match k with FByte => 0 | FBit => 1 end.
 Definition flat_wire (w : wire) :=
